@@ -48,7 +48,7 @@ ASSUMPTIONS = [
 ]
 BUDGET = {'quick': {'cases': 24000, 'shards': 16, 'seconds': 120, 'shrink_s': 30},
           'thorough': {'cases': 220000, 'shards': 16, 'seconds': 900, 'shrink_s': 60}}
-FLOORS = {'flat': 0.80, 'chain': 0.06, 'rhs=neg-number': 0.06, 'rhs=neg-array-cell': 0.05,
+FLOORS = {'flat': 0.80, 'chain': 0.06, 'rhs=neg-number': 0.06, 'rhs=neg-array-cell': 0.04,
           'rhs=dataset': 0.15, 'op=mutate': 0.05, 'op=copy': 0.03, 'op=mask': 0.04,
           'op=squeeze': 0.04, 'op=div': 0.08, 'op=mul': 0.10, 'bins=edges': 0.1,
           'bins=centres': 0.1, 'bins=mixed': 0.1, 'masked-operand': 0.05, 'ndim>=2': 0.2}
@@ -122,7 +122,9 @@ def _rhs(draw, op, chain):
                 # the right operand may lack bins, or be the only one to have some
                 'binmode': draw(st.sampled_from(['same', 'same', 'same', 'none', 'only-rhs']))}
     if kind == 'arr':
-        return {'kind': 'arr', 'vals': draw(_vals(nonzero))}
+        return {'kind': 'arr', 'vals': draw(_vals(nonzero)),
+                # the array operand may hold unsigned integers (detector counts) or booleans
+                'dtype': draw(st.sampled_from(['f', 'f', 'f', 'f', 'f', 'u1', 'u8', 'i8', '?']))}
     if kind == 'int':
         num = draw(st.integers(-50, 50))
         return {'kind': 'int', 'c': num if (num or not nonzero) else -7}
@@ -341,6 +343,17 @@ class _Run:
             return 'dataset', dset, live
         if rkind == 'arr':
             arr = _tile(rhs['vals'], shape)
+            dtype = rhs.get('dtype', 'f')
+            if dtype != 'f':
+                small = np.abs(np.nan_to_num(arr, nan=1.0, posinf=3.0, neginf=2.0)) % 200.0
+                if dtype == '?':
+                    arr = np.asarray(small >= 1.0)
+                elif dtype == 'i8':
+                    sign = np.where(np.nan_to_num(arr) < 0, -1.0, 1.0)
+                    arr = np.asarray(sign * np.floor(small + 1.0)).astype(np.int64)
+                else:
+                    arr = np.asarray(np.floor(small) + 1.0).astype(dtype)   # never zero (divisor)
+                self.labels.add('rhs=array-dtype-' + {'?': 'bool', 'i8': 'int64'}.get(dtype, 'uint'))
             return 'array', arr, None
         if rkind == 'barr':
             arr = _tile(rhs['vals'], shape)
